@@ -20,7 +20,7 @@ EVIDENCE_DIR = os.environ.get('VERIF_EVIDENCE_DIR') or os.path.join(VERIF, 'evid
 REPLAY_DIR = os.environ.get('VERIF_REPLAY_DIR') or os.path.join(VERIF, 'replays')
 KNOWN = os.path.join(VERIF, 'known_findings.txt')
 
-CASE_TIMEOUT = 120          # wall seconds per family before a worker is declared wedged
+CASE_TIMEOUT = 300          # wall seconds per generation step / case before a worker is declared wedged
 
 
 def family_seed(verif_seed, prop, index):
@@ -64,14 +64,24 @@ def load_known():
 
 
 # ------------------------------------------------------------------ worker
-def run_family(mod, verif_seed, index, tier):
-    """-> (cases, outcomes) for one family; deterministic."""
+def run_family(mod, verif_seed, index, tier, tick=None):
+    """-> (cases, outcomes) for one family; deterministic.  tick() is called
+    before the generation and before every case (re-arms the watchdog)."""
     rng = random.Random(family_seed(verif_seed, mod.PROP, index))
+    if tick:
+        tick()
     cases = mod.gen(rng, tier, index)
     outs = []
     for c in cases:
+        if tick:
+            tick()
         outs.append(guarded_run(mod, c))
     return cases, outs
+
+
+def _rearm():
+    # a single generation step or case that takes this long is wedged
+    faulthandler.dump_traceback_later(CASE_TIMEOUT, exit=True)
 
 
 def _library_frame(tb):
@@ -168,13 +178,12 @@ def worker_main(prop, verif_seed, tier, nfam, counter, conn, wid, deadline, chun
                 if time.time() > deadline:
                     acc['truncated'] = True
                     break
-                faulthandler.dump_traceback_later(CASE_TIMEOUT, exit=True)
-                cases, outs = run_family(mod, verif_seed, i, tier)
+                cases, outs = run_family(mod, verif_seed, i, tier, _rearm)
                 d = _digest(outs)
                 if i < 64:
                     acc['digests'][i] = d
-                if twice_every and i % twice_every == 0:
-                    cases2, outs2 = run_family(mod, verif_seed, i, tier)
+                if twice_every and i % twice_every == 0 and len(cases) <= 400:
+                    cases2, outs2 = run_family(mod, verif_seed, i, tier, _rearm)
                     if _digest(outs2) != d or cases2 != cases:
                         acc['nondet'].append(i)
                 faulthandler.cancel_dump_traceback_later()
